@@ -344,7 +344,6 @@ def _(c):
     c.pre(lambda b: fw_pre(b, "G10"))
     c.requires("Inv", lambda f: inv_all(f.self.state, f.g["P"]))
     c.requires("I-E", lambda f: inv_e(f.self.state, f.g["P"]))
-    c.requires("C05-domain: firmware retractions only", lambda f: fw_inv(f.self.state, f.g["P"], f.g["Ffw"]))
     c.loop(0, invariant=lambda L, k: And(Not(has_word(L.cmd, "P", k)), Not(has_word(L.cmd, "L", k))), scratch=["_"])
 
     def tool_offset_form(f):
@@ -355,7 +354,8 @@ def _(c):
 
     def parity(f):
         Q, log = fw_run(f, "g10")
-        return Implies(Not(tool_offset_form(f)), And(fw_inv(f.self.state, Q, True), RP.same_xyz(Q, f.g["P"]), eq(Q.fil, f.g["P"].fil),
+        # domain of C05: firmware retractions only (not mixed), coupling invariant holds before
+        return Implies(And(fw_inv(f.old.self.state, f.g["P"], f.g["Ffw"]), Not(tool_offset_form(f))), And(fw_inv(f.self.state, Q, True), RP.same_xyz(Q, f.g["P"]), eq(Q.fil, f.g["P"].fil),
                                                      eq(Q.e, f.g["P"].e)))
     c.ensures("C05.firmware-retract-parity", parity, props=("C05", "C01", "C04"))
     c.ensures("Inv-preserved", lambda f: And(inv_all(f.self.state, fw_run(f, "g10")[0]), inv_e(f.self.state, fw_run(f, "g10")[0])),
@@ -370,11 +370,10 @@ def _(c):
     c.pre(lambda b: fw_pre(b, "G11"))
     c.requires("Inv", lambda f: inv_all(f.self.state, f.g["P"]))
     c.requires("I-E", lambda f: inv_e(f.self.state, f.g["P"]))
-    c.requires("C05-domain: firmware retractions only", lambda f: fw_inv(f.self.state, f.g["P"], f.g["Ffw"]))
 
     def parity(f):
         Q, log = fw_run(f, "g11")
-        return And(fw_inv(f.self.state, Q, False), RP.same_xyz(Q, f.g["P"]), eq(Q.fil, f.g["P"].fil), eq(Q.e, f.g["P"].e))
+        return Implies(fw_inv(f.old.self.state, f.g["P"], f.g["Ffw"]), And(fw_inv(f.self.state, Q, False), RP.same_xyz(Q, f.g["P"]), eq(Q.fil, f.g["P"].fil), eq(Q.e, f.g["P"].e)))
     c.ensures("C05.firmware-recover-parity", parity, props=("C05", "C01", "C04"))
     c.ensures("Inv-preserved", lambda f: And(inv_all(f.self.state, fw_run(f, "g11")[0]), inv_e(f.self.state, fw_run(f, "g11")[0])),
               props=("C01", "C02", "C03", "C04", "C05"))
@@ -559,3 +558,129 @@ def _(c):
            havoc_fields=["position.%s.%s" % (a, fld) for a in ("X_AXIS", "Y_AXIS", "Z_AXIS") for fld in ("current", "homeOffset")])
     c.ensures("C09.returns-none", lambda f: f.result is None, props=("C09", "C02"))
     c.ensures("C02.transparent", lambda f: Implies(J(f.old.self.state), J(f.self.state)), props=("C02",))
+
+
+# ------------------------------------------------------------------------------------------ dispatch
+HANDLED = ("G0", "G1", "G2", "G3", "G10", "G11", "G20", "G21", "G28", "G90", "G91", "G92", "M206")
+
+for _code in HANDLED:
+    _con = REGISTRY.get(H + "_handle_" + _code)
+    if _con.summary_fn is None:
+        _con.summary(handler_summary("_handle_" + _code))
+    _con.use_modular()
+
+
+@contract(S + "processExtendedGcode")
+def _(c):
+    c.summary(state_summary("processExtendedGcode"))
+    c.use_modular()
+
+
+def upper_of(g):
+    if isinstance(g, str):
+        return g.upper()
+    from pyvc.stubs import STR_UPPER
+    return STR_UPPER(g)
+
+
+@contract(H + "handleGcode")
+def _(c):
+    def pre(b):
+        st = mk_motion_state(b)
+        h = mk_handlers(b, st)
+        g = {"P": mk_printer(b)}
+        k = b.choose(len(HANDLED) + 2, "gcode")
+        if k < len(HANDLED):
+            gcode = HANDLED[k] if not b.native else HANDLED[k].lower()
+        elif k == len(HANDLED):
+            gcode = "M117"
+        else:
+            gcode = b.string("gcode")
+        for code in HANDLED:
+            b.spy(g, h, "_handle_" + code)
+        b.spy(g, st, "processExtendedGcode")
+        return {"self": h, "args": {"cmd": b.string("cmd"), "gcode": gcode, "subcode": None}, "ghost": g}
+    c.pre(pre)
+    c.requires("Inv", lambda f: inv_all(f.self.state, f.g["P"]))
+    c.requires("I-E", lambda f: inv_e(f.self.state, f.g["P"]))
+
+    def dispatch(f):
+        cs = calls(f)
+        if len(cs) != 1:
+            return False
+        name, a, tok = cs[0]
+        up = upper_of(f.a.gcode)
+        if name == "processExtendedGcode":
+            target_ok = And(*[Not(str_eq(up, code)) for code in HANDLED])
+            gc_ok = str_eq(a["gcode"], up)
+        else:
+            code = name[len("_handle_"):]
+            target_ok = code in HANDLED and str_eq(up, code)
+            gc_ok = str_eq(a["gcode"], up)
+        same_cmd = (a["cmd"] is f.a.cmd) or str_eq(a["cmd"], f.a.cmd)
+        return And(target_ok, gc_ok, same_cmd, a["subcode"] is f.a.subcode, (f.result is tok) or getattr(f, "native", False))
+    c.ensures("C09.dispatch-exactly-one-handler", dispatch, props=("C09", "C01", "C02", "C19", "C06", "C20"))
+
+
+# ------------------------------------------------------------------------------------------ @-commands (C14)
+from contracts.motion import exit_structure, z_order_ok, tracked_xyz   # noqa: E402
+
+
+def mk_at_entries(b, n, cmd):
+    out = []
+    for i in range(n):
+        action = ["enable_exclusion", "disable_exclusion"][b.choose(2, "action %d" % i)]
+        same = b.choose(2, "entry %d command equals?" % i) == 0
+        pat = None if b.choose(2, "pattern %d None?" % i) == 0 else b.opaque_regex("p%d" % i)
+        out.append(b.new("AtCommandAction", command=cmd if same else "SomethingElse", parameterPattern=pat, action=action,
+                         description="entry %d" % i))
+    return out
+
+
+@contract(H + "handleAtCommand")
+def _(c):
+    def pre(b):
+        st = mk_motion_state(b, enter="opaque")
+        n = b.choose(4, "configured entries for this command")     # None, 0, 1, 2 entries (bounded: see evidence)
+        cmd = "ExcludeRegion"
+        table = {} if n == 0 else {cmd: b.list(mk_at_entries(b, n - 1, cmd))}
+        st.atCommandActions = b.dict(table)
+        h = mk_handlers(b, st)
+        comm = b.comm(b.bool("streaming"))
+        return {"self": h, "args": {"commInstance": comm, "cmd": cmd, "parameters": b.string("parameters")},
+                "ghost": {"P": mk_printer(b)}}
+    c.pre(pre)
+    c.requires("Inv", lambda f: inv_all(f.self.state, f.g["P"]))
+
+    def sent(f):
+        return list(f.a.commInstance.sent)
+
+    c.ensures("C14.streaming-changes-nothing", lambda f: Implies(f.a.commInstance.streaming, And(f.result is False, f.unchanged())),
+              props=("C14",))
+    c.ensures("C14.unhandled-changes-nothing", lambda f: Implies(f.result is False, f.unchanged()), props=("C14",))
+
+    def effects(f):
+        """Everything sent through the comm instance is an exit sequence: run on the printer it re-synchronises the
+        position; afterwards the invariant holds again (so later decisions use the true position)."""
+        st = f.self.state
+        P = f.g["P"]
+        Q, log = RP.run(P, st.position, sent(f), None, None)
+        return And(inv_type(st), inv_excl(st), inv_pos(st, Q), inv_lastpos(st, Q),
+                   Implies(len(sent(f)) > 0, And(Not(st.excluding), f.old.self.state.excluding,
+                                                 z_order_ok(P, Q, log, tracked_xyz(st)[2]))),
+                   Implies(len(sent(f)) == 0, RP.same_xyz(P, Q)))
+    c.ensures("C14.disable-mid-episode-resynchronises", effects, props=("C14", "C03", "C01"))
+
+    def last_action_wins(f):
+        """With one matching entry: enable => enabled afterwards; disable => disabled and no episode open."""
+        st = f.self.state
+        tab = f.old.self.state.atCommandActions
+        ents = tab.get("ExcludeRegion") if isinstance(tab, dict) else tab.d.get("ExcludeRegion")
+        ents = list(ents) if ents is not None else []
+        if len(ents) != 1 or f.result is not True:
+            return True
+        act = ents[0].action
+        if act == "enable_exclusion":
+            return And(st._exclusionEnabled, len(sent(f)) == 0)
+        return And(Not(st._exclusionEnabled), Not(st.excluding))
+    c.ensures("C14.single-action-effect", last_action_wins, props=("C14",))
